@@ -278,6 +278,19 @@ func freshResult(callee *ssa.Function) bool {
 	return strings.HasPrefix(name, "golang.org/x/exp/maps.Keys") || strings.HasPrefix(name, "slices.Clone") || strings.HasPrefix(name, "maps.Keys") || strings.HasPrefix(name, "maps.Clone")
 }
 
+// appendLike: standard-library functions that append scalars to the byte slice they are given and return it
+// (strconv.AppendInt, utf8.AppendRune, fmt.Appendf, ...): the result is the argument's array or a fresh one, and
+// nothing but bytes is stored.
+func appendLike(callee *ssa.Function) bool {
+	name := callee.String()
+	for _, p := range []string{"strconv.Append", "unicode/utf8.AppendRune", "fmt.Append", "slices.Grow", "slices.Clip"} {
+		if strings.HasPrefix(name, p) {
+			return true
+		}
+	}
+	return false
+}
+
 func (ef *effects) get(v ssa.Value) memClass { return ef.cls[v] }
 
 func (ef *effects) add(v ssa.Value, c memClass) {
@@ -563,6 +576,16 @@ func (ef *effects) transfer(fn *ssa.Function, ins ssa.Instruction) {
 			ef.addContents(x, cc)
 		case callee != nil && freshResult(callee):
 			ef.add(x, clsLocal)
+		case callee != nil && appendLike(callee) && len(com.Args) >= 1:
+			// like the builtin append: the first argument's array, or a fresh one
+			ef.add(x, clsLocal|ef.valueClass(com.Args[0]))
+			var c memClass
+			var rs []ssa.Value
+			ef.roots(com.Args[0], map[ssa.Value]bool{}, &rs)
+			for _, r := range rs {
+				c |= ef.contents[r]
+			}
+			ef.addContents(x, c)
 		case callee != nil && callee.Signature.Recv() != nil && strings.HasPrefix(callee.String(), "(*strings.Builder)"):
 			ef.add(x, clsLocal)
 		default:
